@@ -72,7 +72,14 @@ def callOracles (call : String) (c : TCtx) (n : Net) (_m : Mem) (o : TOut) : Lis
    else []) ++
   (if call = "finalisingTrafficRouting" then
     [("C04.finalising_order", finalisingOrder c n o),
-     ("C10.finalising_order", finalisingOrder c n o)]
+     ("C10.finalising_order", finalisingOrder c n o),
+     ("C05.finalising_order", finalisingOrder c n o)]
+   else []) ++
+  -- C05: a clean-up call that reports completion (no retry, no error) has established its effect
+  (if c.hasRef ∧ o.done = false ∧ o.err = false then
+    (if call = "restoreStableService" then [("C05.finalising_order", !o.net.stableExists || o.net.stableSel.getD "" == "")] else []) ++
+    (if call = "restoreGateway" then [("C05.task_post", o.net.canaryIng.isNone)] else []) ++
+    (if call = "removeCanaryService" then [("C05.task_post", c.disableGen || o.net.canarySvc.isNone)] else [])
    else [])
 
 end RV.Oracle.Traffic
